@@ -7,10 +7,9 @@ use re::math::color::{rgb, Color3};
 use re::util::buf::{AsSlice2, Buf2};
 use re::util::pnm::*;
 
-const PAY: usize = 9;
 
 /// decode `hdr ++ payload[..n]`; P = samples per pixel in the payload (3: P6, 1: P5)
-fn decode_case(hdr: &[u8], w: u32, h: u32, per_px: usize) {
+fn decode_case<const PAY: usize>(hdr: &[u8], w: u32, h: u32, per_px: usize) {
     let pay: [u8; PAY] = kani::any();
     let n: usize = kani::any();
     kani::assume(n <= PAY);
@@ -41,20 +40,20 @@ fn decode_case(hdr: &[u8], w: u32, h: u32, per_px: usize) {
 }
 
 macro_rules! decode_harness {
-    ($name:ident, $hdr:expr, $w:expr, $h:expr, $pp:expr) => {
+    ($name:ident, $hdr:expr, $w:expr, $h:expr, $pp:expr, $pay:expr) => {
         #[kani::proof]
         #[kani::unwind(40)]
         fn $name() {
-            decode_case($hdr, $w, $h, $pp);
+            decode_case::<$pay>($hdr, $w, $h, $pp);
         }
     };
 }
 
-decode_harness!(c13_p6_2x1, b"P6 2 1 255\n", 2, 1, 3);
-decode_harness!(c13_p6_1x3_tabs_cr, b"P6\t1\r\n3\n255 ", 1, 3, 3);
-decode_harness!(c13_p6_comments, b"P6\n# a comment 9 9\n3 # w\n1\n#max\n255\n", 3, 1, 3);
-decode_harness!(c13_p5_3x3, b"P5 3 3 255\n", 3, 3, 1);
-decode_harness!(c13_p5_2x2_comment, b"P5 #c\n2 2 # 7 7\n255\n", 2, 2, 1);
+decode_harness!(c13_p6_2x1, b"P6 2 1 255\n", 2, 1, 3, 7);
+decode_harness!(c13_p6_1x2_tabs_cr, b"P6\t1\r\n2\n255 ", 1, 2, 3, 7);
+decode_harness!(c13_p6_comments, b"P6\n# a comment 9 9\n2 # w\n1\n#max\n255\n", 2, 1, 3, 7);
+decode_harness!(c13_p5_3x3, b"P5 3 3 255\n", 3, 3, 1, 9);
+decode_harness!(c13_p5_2x2_comment, b"P5 #c\n2 2 # 7 7\n255\n", 2, 2, 1, 5);
 
 /// zero-sized images: any payload, no panic, Ok with the header's dims
 fn decode_empty(hdr: &[u8], w: u32, h: u32) {
@@ -85,15 +84,24 @@ fn decode_huge(hdr: &[u8]) {
 #[kani::proof] #[kani::unwind(40)] fn c13_p5_large() { decode_huge(b"P5 40000 40000 255\n"); }
 #[kani::proof] #[kani::unwind(40)] fn c13_p6_dim_too_big_for_u32() { decode_huge(b"P6 4294967296 1 255\n"); }
 
-/// a supported magic followed by garbage instead of numbers: error, never a panic
+/// unsupported or truncated magic numbers (concrete table): error, never a panic
 #[kani::proof]
-#[kani::unwind(24)]
-fn c13_garbage_after_magic() {
+#[kani::unwind(12)]
+fn c13_bad_magic() {
     for (hdr, magic) in [(&b"P1 1 1\n0"[..], *b"P1"), (&b"P7 1 1 255\n"[..], *b"P7"), (&b"Q6 1 1 255\n"[..], *b"Q6"), (&b"\0\0"[..], [0, 0])] {
         assert!(matches!(parse_pnm(hdr.iter().copied()), Err(Error::Unsupported(m)) if m == magic));
     }
     assert!(matches!(parse_pnm(b"P".iter().copied()), Err(Error::UnexpectedEnd)));
     assert!(matches!(parse_pnm(b"".iter().copied()), Err(Error::UnexpectedEnd)));
+    kani::cover!(true, "reached the end");
+}
+
+/// a supported magic followed by garbage instead of numbers: error, never a
+/// panic; two concrete text-format files decode (thorough tier: concrete
+/// execution of String / str::parse is slow in the symbolic engine)
+#[kani::proof]
+#[kani::unwind(24)]
+fn c13_garbage_after_magic() {
     for hdr in [&b"P6 x 1 255\n"[..], &b"P5 2 -1 255\n"[..], &b"P6 2"[..], &b"P6 2 2 70000\n"[..], &b"P3 1 1 255\n300 0 0"[..], &b"P2 1 1 255\n"[..]] {
         let r = parse_pnm(hdr.iter().copied());
         assert!(r.is_err());
@@ -123,7 +131,7 @@ fn c13_roundtrip_2x2_view() {
     kani::assume(x < 2 && y < 2);
     let i = 3 * (3 * (oy + y) + ox + x) as usize;
     assert!(back[[x, y]].0 == [px[i], px[i + 1], px[i + 2]]);
-    kani::cover!(ox == 1 && oy == 1, "strided view");
+    kani::cover!(px[12] != px[15], "distinct pixels");
 }
 
 /// N2 (writer half, std only): write_ppm of a strided 2x2 sub-view emits the
@@ -136,8 +144,9 @@ fn c13_roundtrip_2x2_view() {
 fn c13_write_ppm_view() {
     let px: [u8; 27] = kani::any();
     let big = Buf2::new_with((3, 3), |x, y| { let i = 3 * (3 * y + x) as usize; rgb(px[i], px[i + 1], px[i + 2]) });
-    let (ox, oy): (u32, u32) = (kani::any(), kani::any());
-    kani::assume(ox <= 1 && oy <= 1);
+    // concrete offset (strided view, stride 3 > width 2): a symbolic one would make the
+    // *formatted dimensions* symbolic and drag core::fmt's integer printing into the solver
+    let (ox, oy): (u32, u32) = (1, 1);
     let mut out: Vec<u8> = Vec::with_capacity(32);
     write_ppm(&mut out, big.slice((ox..ox + 2, oy..oy + 2))).unwrap();
     let hdr = b"P6 2 2 255\n";
@@ -149,5 +158,5 @@ fn c13_write_ppm_view() {
     kani::assume(x < 2 && y < 2 && ch < 3);
     let i = 3 * (3 * (oy + y) + ox + x) as usize + ch;
     assert!(out[hdr.len() + 3 * (2 * y + x) as usize + ch] == px[i]);
-    kani::cover!(ox == 1 && oy == 1, "strided view");
+    kani::cover!(px[12] != px[15], "distinct pixels");
 }
